@@ -212,17 +212,23 @@ func (c *GraphCache) UpdatePolicy(policy *models.CachedEdgePolicy, fromNode,
 		// policy for node 1.
 		case channel.IsNode1 && policy.IsNode1:
 			channel.OutPolicySet = true
-			policy.InboundFee.WhenSome(func(fee lnwire.Fee) {
-				channel.InboundFee = fee
-			})
+
+			// A policy without an inbound fee withdraws the one
+			// that was advertised before.
+			channel.InboundFee = policy.InboundFee.UnwrapOr(
+				lnwire.Fee{},
+			)
 
 		// This is node 2, and it is edge 2, so this is the outgoing
 		// policy for node 2.
 		case !channel.IsNode1 && !policy.IsNode1:
 			channel.OutPolicySet = true
-			policy.InboundFee.WhenSome(func(fee lnwire.Fee) {
-				channel.InboundFee = fee
-			})
+
+			// A policy without an inbound fee withdraws the one
+			// that was advertised before.
+			channel.InboundFee = policy.InboundFee.UnwrapOr(
+				lnwire.Fee{},
+			)
 
 		// The other two cases left mean it's the inbound policy for the
 		// node.
